@@ -41,6 +41,10 @@ def run(ctx):
         _tv(ctx)
     if ctx.phase('ctv'):
         _ctv(ctx)
+    if ctx.phase('pool'):
+        # pool-level clause: a short-circuited call is 503 / shortCircuited, no server contacted, one record per admitted request
+        from props import c08_proxy
+        c08_proxy.run_proxy(ctx)
 
 
 def _mbt(ctx):
